@@ -38,16 +38,24 @@ def getValues (n : Nat) (v : Option Values) (dflt : Rat) : Except PyErr (List Ra
     else .error .indexError
   | none => .ok (tab n fun _ => 1)
 
+/-- the row argument of `stack_values` after its `None` defaults: ones when nothing at all is given, the default
+    value when only column seeds are given -/
+def defaultedRow (nRow : Nat) (vr vc : Option Values) (dflt : Rat) : Values :=
+  match vr, vc with
+  | none, none => .arr (tab nRow fun _ => 1)
+  | none, some _ => .arr (tab nRow fun _ => dflt)
+  | some r, _ => r
+
+/-- the column argument of `stack_values` after its `None` default -/
+def defaultedCol (nCol : Nat) (vc : Option Values) (dflt : Rat) : Values :=
+  match vc with
+  | none => .arr (tab nCol fun _ => dflt)
+  | some c => c
+
 /-- `stack_values(shape, values_row, values_col, default_value)` -/
 def stackValues (nRow nCol : Nat) (vr vc : Option Values) (dflt : Rat) : Except PyErr (List Rat) := do
-  let (vr', vc') : Values × Values :=
-    match vr, vc with
-    | none, none => (.arr (tab nRow fun _ => 1), .arr (tab nCol fun _ => dflt))
-    | none, some c => (.arr (tab nRow fun _ => dflt), c)
-    | some r, none => (r, .arr (tab nCol fun _ => dflt))
-    | some r, some c => (r, c)
-  let r ← getValues nRow (some vr') dflt
-  let c ← getValues nCol (some vc') dflt
+  let r ← getValues nRow (some (defaultedRow nRow vr vc dflt)) dflt
+  let c ← getValues nCol (some (defaultedCol nCol vc dflt)) dflt
   pure (r ++ c)
 
 /-- the decision of `get_adjacency`: is the input treated as a biadjacency matrix? -/
